@@ -42,7 +42,7 @@ def jobs(tier, seed):
                         ("ares_search_dnsrec from scratch" if entry == 0 else
                          "search_callback for ANY outstanding candidate index", nm, nd, nos)))
     J += mjobs.send_early_jobs(tier)
-    J += [j for j in mjobs.sendquery_jobs(tier) if "srv1" in j["name"] and ("_sib1" in j["name"] or "ex0" in j["name"])]
+    J += [j for j in mjobs.sendquery_jobs(tier) if "srv1" in j["name"] and ("_sib1" in j["name"] or "ex0" in j["name"] or j["name"].endswith("_pre"))]
     J += mjobs.requeue_jobs(tier)
     J += mjobs.close_jobs(tier)
     J += mjobs.readanswers_jobs(tier)
